@@ -944,3 +944,10 @@ package mqtt
 //@ requires[C10] rdr(c)
 //@ requires rdinv(c) && rdmaps(c) && (c.readConn == nil) == (c.bufr == nil)
 //@ at[C12] call termCallbacks#1: assert Is(err, ErrClosed)
+
+// BigMessage.ReadAll: the payload announced, byte for byte from the reader's stream, once.
+//@ func mqtt.(*BigMessage).ReadAll -> message, err
+//@ requires e != nil && e.Client != nil && e.Size >= 0 && (e.Client.bigMessage == e ==> e.Client.bufr != nil)
+//@ ensures[C06] old(e.Client.bigMessage) != e ==> err != nil && message == nil && rx_pos(e.Client.bufr) == old(rx_pos(e.Client.bufr))
+//@ ensures[C06] old(e.Client.bigMessage) == e ==> e.Client.bigMessage == nil
+//@ ensures[C06] err == nil ==> len(message) == e.Size && fresh(message) && rx_pos(e.Client.bufr) == old(rx_pos(e.Client.bufr)) + e.Size && forall(k, 0, len(message), message[k] == rx_stream(e.Client.bufr)[old(rx_pos(e.Client.bufr)) + k])
